@@ -253,9 +253,22 @@ theorem extremum_map_int (isMax : Bool) (n : Int) (ns : List Int) :
     · by_cases h : a < n <;> simp [h, ih]
     · by_cases h : n < a <;> simp [h, ih]
 
-theorem fnMinMax_ints (n : Int) (ns : List Int) :
-    fnMinMax true ((n :: ns).map Atom.int) = .ok [.int (extremum (fun x y => decide (x < y)) true n ns)] := by
-  rw [fnMinMax_eq]
+theorem castUntyped_ints (l : List Int) : castUntyped (l.map Atom.int) = .ok (l.map Atom.int) := by
+  induction l with
+  | nil => rfl
+  | cons a as ih => simp [castUntyped, ih, bind, Except.bind, pure, Except.pure]
+
+theorem atomized_ints (doc : List String) (l : List Int) :
+    (l.map Atom.int).map (atomized doc) = l.map Atom.int := by
+  induction l with
+  | nil => rfl
+  | cons a as ih => simp [atomized] at ih ⊢
+
+theorem fnMinMax_ints (doc : List String) (n : Int) (ns : List Int) :
+    fnMinMax doc true ((n :: ns).map Atom.int)
+      = .ok [.int (extremum (fun x y => decide (x < y)) true n ns)] := by
+  rw [fnMinMax_eq, Spec.fnMinMax, atomized_ints, castUntyped_ints]
+  show Spec.minMaxCore true ((n :: ns).map Atom.int) = _
   have h0 : outsideAgg ((n :: ns).map Atom.int) = false := by
     unfold outsideAgg; rw [List.any_eq_false]; intro x hx
     obtain ⟨k, _, rfl⟩ := List.mem_map.mp hx; simp
@@ -268,6 +281,6 @@ theorem fnMinMax_ints (n : Int) (ns : List Int) :
     unfold anyDouble; rw [List.any_eq_false]; intro x hx
     obtain ⟨k, _, rfl⟩ := List.mem_map.mp hx; simp [isDouble]
   simp only [List.map_cons] at *
-  simp only [Spec.fnMinMax, h0, h1, h2, h3, h4, Bool.false_eq_true, if_false, if_true, extremum_map_int]
+  simp only [Spec.minMaxCore, h0, h1, h2, h3, h4, Bool.false_eq_true, if_false, if_true, extremum_map_int]
 
 end EPV.Seq
